@@ -890,5 +890,52 @@ class ReservedValuesOfEveryShape(Part):
         return res
 
 
+class EveryReservedWordAsToken(Part):
+    name = "every_built_in_reserved_word_as_a_token"
+    desc = ("each built-in reserved word (no blank inside, >= 3 characters) as a token in four letter cases, with a listed "
+            "word that is the reserved word itself, its first / last / middle three characters or everything but its ends "
+            "(where such a piece is in the property's domain): the token stays")
+
+    CHUNK = 400
+
+    def __init__(self, tier, seed):
+        self.tier, self.seed = tier, seed
+        self.words = sorted(w for w in builtin_reserved() if len(w) >= 3 and not re.search(r"\s", w))
+
+    def cases(self):
+        return [{"from": i} for i in range(0, len(self.words), self.CHUNK)]
+
+    @staticmethod
+    def _in_domain(p):
+        return (len(p) >= 2 and p[0].isalpha() and p[-1].isalpha() and p[0].lower() not in "abcdef" and p[-1].lower() not in "abcdef"
+                and not re.search(r"[0-9a-fA-F]{6}", p))
+
+    def run(self, case):
+        from netconan.sensitive_item_removal import SensitiveWordAnonymizer
+
+        res = Res()
+        words = [case["word"]] if "word" in case else self.words[case["from"]: case["from"] + self.CHUNK]
+        for w in words:
+            pieces = {w, w[:3], w[-3:], w[1:-1], w[len(w) // 2 - 1: len(w) // 2 + 2]}
+            for p in sorted(pieces):
+                if not self._in_domain(p):
+                    continue
+                with seams.capture_logs():
+                    an = SensitiveWordAnonymizer([p], "saltForTest")
+                for t in (w, w.upper(), w.title(), w.swapcase()):
+                    res.evals += 1
+                    line = "no " + t + " x"
+                    o = an.anonymize(line)
+                    res.nt((w, p, t))
+                    res.out(o == line)
+                    if o != line:
+                        res.violation("reserved-token-changed|built-in|%s" % ("as-listed" if t == w else "other-letter-case"),
+                                      "listed word %r: %r -> %r" % (p, line, o), {"from": case["from"], "word": w})
+        res.states = len(words)
+        if "word" not in case:
+            res.samples.append({"words": "%s .. %s" % (words[0], words[-1]), "count": len(words)})
+        return res
+
+
 def parts(tier, seed):
-    return [ListsPart(tier, seed), SecretsPart(tier, seed), SeedPart(tier, seed), HistoryPart(tier, seed), OwnOutputWords(tier, seed), SecondAnonymizer(tier, seed), HashCollisions(tier, seed), ScrubbedLines(tier, seed), WithOtherOptions(tier, seed), Separators(tier, seed), PunctuatedWords(tier, seed), EveryCasedLetter(tier, seed), ReservedValuesOfEveryShape(tier, seed)]
+    return [ListsPart(tier, seed), SecretsPart(tier, seed), SeedPart(tier, seed), HistoryPart(tier, seed), OwnOutputWords(tier, seed), SecondAnonymizer(tier, seed), HashCollisions(tier, seed), ScrubbedLines(tier, seed), WithOtherOptions(tier, seed), Separators(tier, seed), PunctuatedWords(tier, seed), EveryCasedLetter(tier, seed), ReservedValuesOfEveryShape(tier, seed), EveryReservedWordAsToken(tier, seed)]
